@@ -52,7 +52,7 @@ TSendEnd ==
        THEN /\ appQ' = IF lastQ THEN SubSeq(appQ, 1, Len(appQ) - 1) ELSE appQ
             /\ (lastQ => (closeMs >= 0 \/ peerGone >= 0))          \* a valid send fails only around a close
        ELSE /\ lastQ /\ UNCHANGED appQ
-            /\ (peerGone >= 0 => ev.ms0 - peerGone < CheckSlackMs)      \* TCP: close noticed within the check interval
+            /\ ((proto = "tcp" /\ peerGone >= 0) => ev.ms0 - peerGone < CheckSlackMs)      \* TCP: close noticed within the check interval
   /\ UNCHANGED << exvars, refreshed, firstMs, closeMs, marked, peerGone, proto, lastQ >>
 
 TimeOK(bytes) == \E t \in (ev.sec - 3)..ev.sec : SubSeq(bytes, 5, 8) = BE4(t)
@@ -81,7 +81,7 @@ TPeerClose == IsEvent("PeerClose") /\ peerGone' = ev.ms /\ UNCHANGED << exvars, 
 \* end of run: everything written was seen, and every template was refreshed each interval (one round of slack)
 TEnd ==
   /\ IsEvent("End")
-  /\ proto = "udp" => /\ appQ = << >>
+  /\ (proto = "udp" /\ peerGone < 0) => /\ appQ = << >>
                       /\ \A tid \in DOMAIN firstMs :
                            (IF tid \in DOMAIN refreshed THEN refreshed[tid] ELSE 0) >= ((closeMs - firstMs[tid]) \div RefreshMs) - 1
   /\ ev.leaked = 0                                                       \* no goroutine of the exporter is left
